@@ -176,7 +176,7 @@ func c14SSHPool(a vh.Args, o *vh.Oracle, r *vh.Result, rng *vh.Rand) error {
 			}
 			ops = append(ops, c14SSHOp{"get", idOf("p1")}, c14SSHOp{"has", idOf("p0")})
 			names = append(names, "get:p1", "has:p0")
-			res, closed, err := c14RunSSHChild(a, s.dir, n, ops, 8*time.Second)
+			res, closed, err := c14RunSSHChild(a, s.dir, n, ops, 5*time.Second)
 			if err != nil {
 				return err
 			}
